@@ -137,14 +137,17 @@ class Execution(object):
                 elif op[0] == "stop":
                     self.players[op[1] - 1].stop()
                 elif op[0] == "close":
-                    io.close()
-                    self.closed = True
-                    self.alive_at_close = [bool(p.is_alive()) for p in self.players]
-                    try:
-                        io.play([0.0], chunk_size=CHUNK)
-                        self.post_play_raised = False
-                    except RuntimeError:
-                        self.post_play_raised = True
+                    # close(), play() must raise; then the same again: the second close() (what leaving the
+                    # with-block after an explicit close() does) finds `finished` set
+                    for _ in range(2):
+                        io.close()
+                        self.closed = True
+                        self.alive_at_close = [bool(p.is_alive()) for p in self.players]
+                        try:
+                            io.play([0.0], chunk_size=CHUNK)
+                            self.post_play_raised = False
+                        except RuntimeError:
+                            self.post_play_raised = True
         except schedmod.SchedAbort:
             raise
         except BaseException as ex:
